@@ -5,7 +5,7 @@ mod verif_in_packet_stream {
     use super::*;
     use core::sync::atomic::{AtomicU64, AtomicUsize, Ordering};
 
-    pub(crate) const NDATA: usize = 10;
+    pub(crate) const NDATA: usize = 4;
 
     /// Transport mock.  Every `poll_read` picks (symbolically, at call time) among the outcomes the
     /// AsyncRead contract allows: `Pending` (the waker is registered: flag), `Ok(n)` with
@@ -18,6 +18,10 @@ mod verif_in_packet_stream {
         /// 0: stays open (Pending) after the last byte; 1: Ok(0); 2: Err
         pub(crate) end: u8,
         pub(crate) may_pend_early: bool,
+        /// the reader returns Pending right after every successful read (at most one chunk per
+        /// poll of the stream): keeps poll_next's self-recursion shallow for the solver
+        pub(crate) one_read_per_poll: bool,
+        pub(crate) just_read: bool,
         pub(crate) registered: bool,
         pub(crate) signalled_end: bool,
         pub(crate) calls: usize,
@@ -34,6 +38,11 @@ mod verif_in_packet_stream {
                 return Poll::Ready(Ok(0));
             }
             let avail = self.len - self.pos;
+            if avail == 0 && self.one_read_per_poll && self.just_read {
+                self.registered = true;
+                self.just_read = false;
+                return Poll::Pending;
+            }
             if avail == 0 {
                 match self.end {
                     0 => {
@@ -50,8 +59,9 @@ mod verif_in_packet_stream {
                     }
                 }
             }
-            if self.may_pend_early && kani::any::<bool>() {
+            if (self.one_read_per_poll && self.just_read) || (self.may_pend_early && kani::any::<bool>()) {
                 self.registered = true;
+                self.just_read = false;
                 return Poll::Pending;
             }
             let n: usize = kani::any();
@@ -62,12 +72,13 @@ mod verif_in_packet_stream {
                 i += 1;
             }
             self.pos += n;
+            self.just_read = true;
             Poll::Ready(Ok(n))
         }
     }
 
     // ---- recording stub for the decoder: L2 is about WHICH byte ranges reach the decoder ----
-    pub(crate) const MAXF: usize = 6;
+    pub(crate) const MAXF: usize = 2;
     static N_FRAMES: AtomicUsize = AtomicUsize::new(0);
     static F_LEN: [AtomicUsize; MAXF] = [const { AtomicUsize::new(0) }; MAXF];
     static F_HEAD: [AtomicU64; MAXF] = [const { AtomicU64::new(0) }; MAXF];
@@ -75,7 +86,7 @@ mod verif_in_packet_stream {
     fn pack(b: &[u8]) -> u64 {
         let mut v = 0u64;
         let mut i = 0;
-        while i < 8 {
+        while i < NDATA {
             v = (v << 8) | if i < b.len() { b[i] as u64 } else { 0 };
             i += 1;
         }
@@ -134,28 +145,28 @@ mod verif_in_packet_stream {
         Context::from_waker(w)
     }
 
-    //@ h name=rx_chunking props=C03,C16,C04 tier=quick cap=big to=2400
+    //@ h name=rx_chunking props=C03,C16,C04 tier=thorough cap=big to=3600 mem=40
     //@ claim: for every byte stream made of frames with one-byte remaining lengths and every way of cutting it into reads (any sizes from 1 byte up, Pending injected anywhere), poll_next hands the decoder exactly the reference frames (same boundaries, same bytes, same order) no matter how the bytes were chunked; it returns Pending only after the reader returned Pending in that same call (so a wakeup is registered); when it returns Pending every complete frame among the delivered bytes has been emitted; it returns end-of-stream only after the reader reported end-of-stream or an error; it never panics
-    //@ bounds: streams of 0..=10 arbitrary bytes whose frame headers carry one-byte remaining lengths (frames of 2..=10 bytes, up to 5 frames, possibly an incomplete tail); up to 8 polls of the stream; reads limited by what the stream offers (512-byte chunks) and by the bytes still to come; RxPacket::try_decode replaced by a recording stub (the decoders are checked separately)
+    //@ bounds: streams of 0..=4 arbitrary bytes whose frame headers carry one-byte remaining lengths (frames of 2..=4 bytes, up to 2 frames, possibly an incomplete tail); up to 4 polls; the reader delivers at most one chunk per poll of the stream (it returns Pending after every successful read) of the stream; reads limited by what the stream offers (512-byte chunks) and by the bytes still to come; RxPacket::try_decode replaced by a recording stub (the decoders are checked separately)
     //@ assume: RxPacket::try_decode stubbed by a recorder (framing does not depend on its result)
     //@ funcs: RxPacketStream::poll_next, RxPacketStream::from, VarSizeInt::try_from(&[u8])
     #[kani::proof]
-    #[kani::unwind(12)]
+    #[kani::unwind(6)]
     #[kani::stub(<crate::codec::RxPacket as crate::core::utils::TryDecode>::try_decode, decode_recorder)]
     pub(crate) fn rx_chunking() {
-        rx_chunking_body(true, 8);
+        rx_chunking_body(true, 4);
     }
 
-    //@ h name=rx_chunking_eager props=C03,C16,C04 tier=quick cap=big to=2400
+    //@ h name=rx_chunking_eager props=C03,C16,C04 tier=thorough cap=big to=3600 mem=40
     //@ claim: same as rx_chunking, for readers that never return Pending while bytes are outstanding (every cut of the stream into reads, no early Pending), with more polls
-    //@ bounds: as rx_chunking but the reader returns Pending only after the last byte; up to 10 polls
+    //@ bounds: as rx_chunking but the reader returns Pending only after the last byte; up to 5 polls
     //@ assume: RxPacket::try_decode stubbed by a recorder (framing does not depend on its result)
     //@ funcs: RxPacketStream::poll_next
     #[kani::proof]
-    #[kani::unwind(12)]
+    #[kani::unwind(6)]
     #[kani::stub(<crate::codec::RxPacket as crate::core::utils::TryDecode>::try_decode, decode_recorder)]
     pub(crate) fn rx_chunking_eager() {
-        rx_chunking_body(false, 10);
+        rx_chunking_body(false, 5);
     }
 
     fn rx_chunking_body(may_pend_early: bool, polls: usize) {
@@ -179,7 +190,7 @@ mod verif_in_packet_stream {
         let end: u8 = kani::any();
         kani::assume(end <= 2);
         N_FRAMES.store(0, Ordering::Relaxed);
-        let mock = MockRx { data, len, pos: 0, end, may_pend_early, registered: false, signalled_end: false, calls: 0, zero_len_reads: 0 };
+        let mock = MockRx { data, len, pos: 0, end, may_pend_early, one_read_per_poll: true, just_read: false, registered: false, signalled_end: false, calls: 0, zero_len_reads: 0 };
         let mut stream = RxPacketStream::from(mock);
         let mut cx = noop_cx();
         let mut emitted = 0usize;
@@ -222,4 +233,188 @@ mod verif_in_packet_stream {
         kani::cover!(ended, "end-of-stream reported");
         core::mem::forget(stream);
     }
+
+    //@ h name=rx_one_byte_reads props=C03,C16,C04 tier=quick cap=big to=1200
+    //@ claim: a two-byte packet delivered one byte per read (the reader returns each byte as soon as asked and Pending afterwards): the stream never returns Pending without the reader having registered the waker, never panics, never reports end-of-stream, and emits the packet once both bytes arrived
+    //@ bounds: frames <hdr> 00 for every header byte; exactly the chunking 1+1; up to 4 polls
+    //@ assume: RxPacket::try_decode stubbed by a recorder
+    //@ funcs: RxPacketStream::poll_next
+    #[kani::proof]
+    #[kani::unwind(6)]
+    #[kani::stub(<crate::codec::RxPacket as crate::core::utils::TryDecode>::try_decode, decode_recorder)]
+    pub(crate) fn rx_one_byte_reads() {
+        let hdr: u8 = kani::any();
+        let mut data = [0u8; NDATA];
+        data[0] = hdr;
+        N_FRAMES.store(0, Ordering::Relaxed);
+        let mock = OneByteRx { data, len: 2, pos: 0, registered: false };
+        let mut stream = RxPacketStream::from(mock);
+        let mut cx = noop_cx();
+        let mut emitted = 0;
+        let mut i = 0;
+        while i < 4 {
+            stream.stream.registered = false;
+            match Pin::new(&mut stream).poll_next(&mut cx) {
+                Poll::Pending => {
+                    assert!(stream.stream.registered, "Pending only after the reader returned Pending in this poll (wakeup registered)");
+                    assert!(emitted == 1 || stream.stream.pos < 2, "when Pending, a complete delivered frame has been emitted");
+                }
+                Poll::Ready(None) => panic!("end-of-stream although the transport is still open"),
+                Poll::Ready(Some(r)) => {
+                    assert!(emitted == 0 && stream.stream.pos == 2, "emitted once, after both bytes arrived");
+                    assert!(F_LEN[0].load(Ordering::Relaxed) == 2 && F_HEAD[0].load(Ordering::Relaxed) == pack(&data[..2]), "the frame is the two bytes");
+                    emitted += 1;
+                    core::mem::forget(r);
+                }
+            }
+            i += 1;
+        }
+        assert!(emitted == 1, "the packet is emitted within four polls");
+        kani::cover!(hdr == 0xd0, "PINGRESP one byte at a time");
+        core::mem::forget(stream);
+    }
+
+    /// Delivers exactly one byte per call while bytes remain, then Pending.
+    pub(crate) struct OneByteRx {
+        pub(crate) data: [u8; NDATA],
+        pub(crate) len: usize,
+        pub(crate) pos: usize,
+        pub(crate) registered: bool,
+    }
+    impl AsyncRead for OneByteRx {
+        fn poll_read(mut self: Pin<&mut Self>, _cx: &mut Context<'_>, buf: &mut [u8]) -> Poll<io::Result<usize>> {
+            if buf.is_empty() {
+                return Poll::Ready(Ok(0));
+            }
+            if self.pos >= self.len {
+                self.registered = true;
+                return Poll::Pending;
+            }
+            buf[0] = self.data[self.pos];
+            self.pos += 1;
+            Poll::Ready(Ok(1))
+        }
+    }
+
+    pub(crate) const SN: usize = 8;
+    /// Scripted reader: delivers the stream in the given chunk sizes (as many per poll as asked
+    /// for), then stays Pending.
+    pub(crate) struct ScriptRx {
+        pub(crate) data: [u8; SN],
+        pub(crate) len: usize,
+        pub(crate) pos: usize,
+        pub(crate) cuts: [usize; 4],
+        pub(crate) k: usize,
+        pub(crate) registered: bool,
+    }
+    impl AsyncRead for ScriptRx {
+        fn poll_read(mut self: Pin<&mut Self>, _cx: &mut Context<'_>, buf: &mut [u8]) -> Poll<io::Result<usize>> {
+            if buf.is_empty() {
+                return Poll::Ready(Ok(0));
+            }
+            if self.pos >= self.len || self.k >= 4 || self.cuts[self.k] == 0 {
+                self.registered = true;
+                return Poll::Pending;
+            }
+            let n = self.cuts[self.k];
+            let mut i = 0;
+            while i < n {
+                buf[i] = self.data[self.pos + i];
+                i += 1;
+            }
+            self.pos += n;
+            self.k += 1;
+            Poll::Ready(Ok(n))
+        }
+    }
+
+    fn pack8(b: &[u8]) -> u64 {
+        let mut v = 0u64;
+        let mut i = 0;
+        while i < 8 {
+            v = (v << 8) | if i < b.len() { b[i] as u64 } else { 0 };
+            i += 1;
+        }
+        v
+    }
+    pub(crate) fn decode_recorder8(bytes: bytes::Bytes) -> Result<RxPacket, CodecError> {
+        let k = N_FRAMES.load(Ordering::Relaxed);
+        if k < MAXF {
+            F_LEN[k].store(bytes.len(), Ordering::Relaxed);
+            F_HEAD[k].store(pack8(&bytes[..]), Ordering::Relaxed);
+        }
+        N_FRAMES.store(k + 1, Ordering::Relaxed);
+        Ok(RxPacket::Pingresp(crate::codec::PingrespRx {}))
+    }
+
+    /// Two frames with remaining lengths `rl0`, `rl1` (header bytes and bodies symbolic) delivered
+    /// in the chunk sizes `cuts` (0 = unused).  Independence of chunking: the decoder must be
+    /// handed exactly the two frames whatever the cuts; Pending only after the reader's Pending;
+    /// no end-of-stream; no panic.
+    fn rx_script_body(rl0: usize, rl1: usize, cuts: [usize; 4]) {
+        let mut data: [u8; SN] = kani::any();
+        let l0 = 2 + rl0;
+        let l1 = 2 + rl1;
+        data[1] = rl0 as u8;
+        data[l0 + 1] = rl1 as u8;
+        let len = l0 + l1;
+        N_FRAMES.store(0, Ordering::Relaxed);
+        let mock = ScriptRx { data, len, pos: 0, cuts, k: 0, registered: false };
+        let mut stream = RxPacketStream::from(mock);
+        let mut cx = noop_cx();
+        let mut emitted = 0usize;
+        let mut i = 0;
+        while i < 4 {
+            stream.stream.registered = false;
+            match Pin::new(&mut stream).poll_next(&mut cx) {
+                Poll::Pending => {
+                    assert!(stream.stream.registered, "Pending only after the reader returned Pending in this poll (wakeup registered)");
+                    let got = stream.stream.pos;
+                    let complete = if got >= len { 2 } else if got >= l0 { 1 } else { 0 };
+                    assert!(emitted == complete, "when Pending, every complete frame among the delivered bytes has been emitted");
+                }
+                Poll::Ready(None) => panic!("end-of-stream although the transport is still open"),
+                Poll::Ready(Some(r)) => {
+                    assert!(emitted < 2, "no third frame");
+                    let (start, flen) = if emitted == 0 { (0, l0) } else { (l0, l1) };
+                    assert!(F_LEN[emitted].load(Ordering::Relaxed) == flen, "frame length equals the reference frame");
+                    assert!(F_HEAD[emitted].load(Ordering::Relaxed) == pack8(&data[start..start + flen]), "frame bytes equal the reference frame");
+                    emitted += 1;
+                    core::mem::forget(r);
+                }
+            }
+            i += 1;
+        }
+        assert!(emitted == 2, "both frames are emitted within four polls");
+        kani::cover!(true, "script completed");
+        core::mem::forget(stream);
+    }
+
+    macro_rules! rx_script {
+        ($name:ident, $rl0:expr, $rl1:expr, $cuts:expr) => {
+            #[kani::proof]
+            #[kani::unwind(9)]
+            #[kani::stub(<crate::codec::RxPacket as crate::core::utils::TryDecode>::try_decode, decode_recorder8)]
+            pub(crate) fn $name() {
+                rx_script_body($rl0, $rl1, $cuts);
+            }
+        };
+    }
+    //@ h name=rx_script_3_3 props=C03,C16,C04 tier=quick cap=big to=1800 mem=30
+    //@ h name=rx_script_1_1_4 props=C03,C16,C04 tier=quick cap=big to=1800 mem=30
+    //@ h name=rx_script_2_3 props=C03,C16,C04 tier=quick cap=big to=1800
+    //@ h name=rx_script_whole props=C03,C16,C04 tier=quick cap=big to=1800
+    //@ h name=rx_script_4_1_1 props=C03,C16,C04 tier=thorough cap=big to=1800
+    //@ h name=rx_script_1_4 props=C03,C16,C04 tier=thorough cap=big to=1800
+    //@ claim: two consecutive frames are handed to the decoder with exactly their own bytes, in order, for the given way of cutting the byte stream into reads (a cut inside the fixed header, right after the next frame's header byte, at the frame boundary, or none); the stream returns Pending only after the reader returned Pending in that poll, emits every complete frame before going Pending, never reports end-of-stream while the transport is open, never panics
+    //@ bounds: two frames with concrete remaining lengths (0+2, 0+2, 1+0, 0+0, 2+0, 0+3) and symbolic header and body bytes; one concrete cut pattern per harness (3|3, 1|1|4, 2|3, whole, 4|1|1, 1|4); up to 4 polls; all chunkings of short streams with symbolic cuts (rx_chunking*) are in the thorough tier because they exceed the quick tier's memory cap
+    //@ assume: RxPacket::try_decode stubbed by a recorder (framing does not depend on its result)
+    //@ funcs: RxPacketStream::poll_next, RxPacketStream::from, VarSizeInt::try_from(&[u8])
+    rx_script!(rx_script_3_3, 0, 2, [3, 3, 0, 0]);
+    rx_script!(rx_script_1_1_4, 0, 2, [1, 1, 4, 0]);
+    rx_script!(rx_script_2_3, 1, 0, [2, 3, 0, 0]);
+    rx_script!(rx_script_whole, 0, 0, [4, 0, 0, 0]);
+    rx_script!(rx_script_4_1_1, 2, 0, [4, 1, 1, 0]);
+    rx_script!(rx_script_1_4, 0, 3, [1, 4, 0, 0]);
+
 }
